@@ -16,7 +16,7 @@ ASSUMPTIONS = ['documented deviations are applied to the expected side: center =
                '" \\t\\n\\r\\v\\f"; empty separator for split/rsplit/partition/rpartition is outside the claim',
                'each call runs under a deterministic line-event bound so that a non-terminating call is reported, not hung']
 
-ALPHA = list('abAB \t\n-:+01x') * 2 + list('\u00e9\u00df\u0130\u01c6\u4e2d') + ['\r', '\v', '\f', '\x1c', '\x85', '\u2028', '\u01c5', '\ufb01', '\r\n', '\r\n', '\n\r']
+ALPHA = list('abAB \t\n-:+01x') * 2 + list('\u00e9\u00df\u0130\u01c6\u4e2d') + ['\r', '\v', '\f', '\x1c', '\x85', '\u2028', '\u01c5', '\ufb01', '\r\n', '\r\n', '\n\r', '\u03a3', '\u03a3', '\u03c3', '\u03c2', '\u039f', '\u0149', '\u0130']
 QUERIES0 = ['isalnum', 'isalpha', 'isascii', 'isdecimal', 'isdigit', 'isidentifier', 'islower', 'isnumeric', 'isprintable',
             'isspace', 'istitle', 'isupper']
 CASES = ['capitalize', 'casefold', 'lower', 'upper', 'swapcase', 'title']
